@@ -153,7 +153,9 @@ def r9_1(wprog, prog, chk):
             wit = g.search(g.entry_pos(), is_target=lambda x, s=store: x["i"] == s["i"], edge_ok=eo)
             if wit is None:
                 for inc in incs[cvar]:
-                    wit = g.search(g.after(inc), is_target=lambda x, s=store: x["i"] == s["i"], edge_ok=eo)
+                    # an increment embedded in the store itself (buf[c++] = v) takes effect after the store
+                    inside = any(x is inc for x in walk(store))
+                    wit = g.search(g.after(store if inside else inc), is_target=lambda x, s=store: x["i"] == s["i"], edge_ok=eo)
                     if wit is not None:
                         break
             cname = [x["n"] for x in walk(f.body) if x["k"] == "DeclRefExpr" and x.get("d") == cvar][0]
@@ -178,6 +180,7 @@ def r9_3(prog, chk):
         raise facts.AnalysisBroken("line buffer size of _file_read (fgets) not found")
     chk.extra["R9.3_tokenizer_line_buffer"] = line_size
     n = 0
+    n6 = [0]
     for f in sorted(prog.funcs, key=lambda x: x.name):
         for c in f.calls():
             if not c.get("variadic"):
@@ -195,7 +198,22 @@ def r9_3(prog, chk):
                 continue
             convs = re.findall(r"%(\d*)(l?[dfgsiuxc]|lf|lg)", args[fi]["v"])
             for j, (width, conv) in enumerate(convs):
-                if conv != "s" or fi + 1 + j >= len(args):
+                if fi + 1 + j >= len(args):
+                    continue
+                if conv != "s":
+                    # R9.6: a numeric input conversion needs the ADDRESS of the destination
+                    tgt = args[fi + 1 + j]
+                    if tgt is None:
+                        continue
+                    tt = (tgt.get("t") or tgt.get("rt") or "")
+                    is_ptr = (tgt["k"] == "UnOp" and tgt.get("op") == "&") or tt.rstrip().endswith("*") or "[" in tt or \
+                        (tgt["k"] == "MCall" and (tgt.get("rt") or "").rstrip().endswith("*"))
+                    n6[0] += 1
+                    chk.analysed(f)
+                    chk.ob("R9.6", "%s: %%%s of %s receives an address (%s)" % (f.name, conv, c.get("callee"), show(tgt)[:30]), f.loc(c), is_ptr,
+                           detail=None if is_ptr else "the value `%s` is passed where the conversion stores through a pointer: the reader writes "
+                           "through a garbage address on every file" % show(tgt)[:30],
+                           key="R9.6|%s|%s" % (f.name, show(tgt)[:30]))
                     continue
                 tgt = args[fi + 1 + j]
                 if tgt is None or tgt["k"] != "DeclRefExpr":
@@ -213,6 +231,7 @@ def r9_3(prog, chk):
                        "into a %d-byte buffer" % (line_size - 1, size),
                        key="R9.3|%s|%s" % (f.name, tgt["n"]))
     chk.floor("R9.3", n, 20)
+    chk.floor("R9.6", n6[0], 35)
 
 
 # ------------------------------------------------------------------------------------------
